@@ -206,6 +206,39 @@ Proof.
 Qed.
 Print Assumptions C05_fp_empty_padding_grows.
 
+(* Fingerprinter.AlwaysAddPadding (ClientHelloSpec.AlwaysAddPadding after FromRaw).  A padding
+   extension that is already in the spec (before any pre_shared_key) is left alone, functor
+   included ... *)
+Theorem C05_addpad_keeps_policy : forall pre pol st post, nopad pre -> nopsk pre ->
+  always_add_padding (pre ++ APad pol st :: post) = pre ++ APad pol st :: post.
+Proof. exact aap_present. Qed.
+Print Assumptions C05_addpad_keeps_policy.
+
+(* ... so the option does not disturb the reproduction of a padded capture's length ... *)
+Theorem C05_fp_length_addpad : forall bbs h pre st post rawlen p,
+  hdr_ok h -> Forall aext_ok pre -> Forall aext_ok post -> nopad pre -> nopad post -> nopsk pre ->
+  let es := always_add_padding (from_raw_install rawlen (pre ++ APad PolBoring st :: post)) in
+  1 <= p ->
+  rawlen = 5 + (unpadded_len h es + 4 + p) ->
+  exists raw, marshal_client_hello bbs h es = Ok raw /\ 5 + len raw = rawlen.
+Proof.
+  intros bbs h pre st post rawlen p Hh Hok1 Hok2 Hn1 Hn2 Hk es Hp Hraw.
+  unfold es in *. rewrite (from_raw_install_one rawlen pre PolBoring st post Hn1) in *.
+  rewrite (aap_present pre _ st post Hn1 Hk) in *.
+  rewrite <- (from_raw_install_one rawlen pre PolBoring st post Hn1) in *.
+  exact (C05_fp_length bbs h pre st post rawlen p Hh Hok1 Hok2 Hn1 Hn2 Hp Hraw).
+Qed.
+Print Assumptions C05_fp_length_addpad.
+
+(* ... and where there is none, exactly one BoringPaddingStyle extension is added: at the end, or
+   just before the pre_shared_key extension (which must stay last). *)
+Theorem C05_addpad_adds_one : forall es, nopad es -> nopsk es -> always_add_padding es = es ++ [fresh_pad].
+Proof. exact aap_absent. Qed.
+Theorem C05_addpad_before_psk : forall pre e post, nopad pre -> nopsk pre -> a_is_pad e = false -> a_is_psk e = true ->
+  always_add_padding (pre ++ e :: post) = pre ++ fresh_pad :: e :: post.
+Proof. exact aap_before_psk. Qed.
+Print Assumptions C05_addpad_before_psk.
+
 (* ---- non-vacuity: concrete inputs meeting the hypotheses ---- *)
 
 Definition ex_hdr : hello_hdr :=
@@ -250,6 +283,14 @@ Proof. vm_compute. split; reflexivity. Qed.
 Example C05_ex_dirty_buffer :
   pad_read {| p_len := 3; p_will := true |} (repeat 9 10) = Ok [0; 21; 0; 3; 9; 9; 9].
 Proof. reflexivity. Qed.
+
+(* AlwaysAddPadding on a fingerprinted padded capture: nothing changes; on a PSK-terminated spec: inserted before it *)
+Example C05_ex_addpad :
+  nopsk ex_pre /\
+  always_add_padding (from_raw_install 319 (ex_pre ++ APad PolBoring ex_st :: ex_post))
+    = ex_pre ++ APad (PolAlways 314) ex_st :: ex_post /\
+  always_add_padding (ex_pre ++ [fixed_ext true [0; 41; 0; 0]]) = ex_pre ++ [fresh_pad; fixed_ext true [0; 41; 0; 0]].
+Proof. split; [repeat constructor | split; reflexivity]. Qed.
 
 (* two padding extensions *)
 Example C05_ex_dup :
